@@ -115,11 +115,13 @@ func (state *IntraAnalysisState) DoExtract(x *ssa.Extract) {
 	// - next instructions
 	// - select instructions
 	// - lookup instructions
-	// Since next, select, lookup instructions are not nodes in the graph, we have to be careful about
-	// how extract interacts with them.
+	// - type assertions and channel receives in their "comma-ok" form
+	// Since next, select, lookup, type assertion and receive instructions are not nodes in the graph, we have to be
+	// careful about how extract interacts with them: the index of the extracted element has nothing to do with the
+	// index carried by the marks of the tuple (which refers to the result of a call).
 	isUntrackedTuple := false
 	switch x.Tuple.(type) {
-	case *ssa.Next, *ssa.Select, *ssa.Lookup:
+	case *ssa.Next, *ssa.Select, *ssa.Lookup, *ssa.TypeAssert, *ssa.UnOp:
 		isUntrackedTuple = true
 	}
 	if isUntrackedTuple {
